@@ -2,6 +2,75 @@
 
 package rib
 
+// Exported (verif-only) access to the canonical-state builder and the reference
+// model for harnesses in other packages (rib/reconciler).
+
+import (
+	spb "github.com/openconfig/gribi/v1/proto/service"
+)
+
+// VfWorld is a real RIB together with the reference description of its contents.
+type VfWorld struct {
+	R   *RIB
+	ref *vfRef
+}
+
+// VfBuild builds a reference-closed RIB (two instances) through the public API with
+// symbolic contents; every symbolic input is named prefix+....
+func VfBuild(prefix string, nNH, nNHG, nTop, members int, kinds []int, rich bool) *VfWorld {
+	r, ref := vfNewPair(true)
+	g := &vfGen{pfx: prefix, rich: rich, fixLow: true}
+	vfCanonical(r, ref, g, vfPreCfg{nNH: nNH, nNHG: nNHG, nTop: nTop, members: members, topKinds: kinds})
+	return &VfWorld{R: r, ref: ref}
+}
+
+// VfKinds: IPv4, IPv6, MPLS top-level kinds.
+func VfKinds(v4, v6, mpls bool) []int {
+	var k []int
+	if v4 {
+		k = append(k, vfKV4)
+	}
+	if v6 {
+		k = append(k, vfKV6)
+	}
+	if mpls {
+		k = append(k, vfKMPLS)
+	}
+	return k
+}
+
+// Apply sends one operation to the real RIB and reports whether it was acknowledged as programmed.
+func (w *VfWorld) Apply(op *spb.AFTOperation) bool {
+	var oks []*OpResult
+	var err error
+	if op.GetOp() == spb.AFTOperation_DELETE {
+		oks, _, err = w.R.DeleteEntry(op.GetNetworkInstance(), op)
+	} else {
+		oks, _, err = w.R.AddEntry(op.GetNetworkInstance(), op)
+	}
+	if err != nil {
+		return false
+	}
+	for _, o := range oks {
+		if o.ID == op.GetId() {
+			return true
+		}
+	}
+	return false
+}
+
+// TablesEqual asserts (labels prefixed with p) that the tables of real equal this world's reference contents.
+func (w *VfWorld) TablesEqual(real *RIB, p string) { w.ref.compareP(real, p, true) }
+
+// AddInstance creates an additional (empty) network instance in the real RIB and the reference.
+func (w *VfWorld) AddInstance(name string) {
+	if err := w.R.AddNetworkInstance(name); err != nil {
+		panic(err)
+	}
+	w.ref.names = append(w.ref.names, name)
+	w.ref.ni[name] = &vfRefNI{v4: map[string]*vfRefTop{}, v6: map[string]*vfRefTop{}, mpls: map[uint64]*vfRefTop{}, nhg: map[uint64]*vfRefNHG{}, nh: map[uint64]*vfRefNH{}}
+}
+
 // Read-only snapshots for harnesses in other packages (build tag verif only).
 
 // VfPendingIDs returns the ids of the held (pending) operations.
